@@ -161,3 +161,23 @@ PROPS["C03"] = {
     "theorem_status": {"C03_closure": "proved", "C03_only_typename_added": "proved", "C03_typename_placement": "proved",
                        "C03_typename_everywhere_needed": "proved", "C03_idempotent_shared": "proved"},
 }
+
+CONV_TRUSTED = [
+    "gqlparser front end (parser, validator: field definitions, possible types) and the syntax of one `# @genqlient(...)` line (the exporter parses each such line the way parseDirective does); harness/export turns the validated AST, the line kinds of every source, the schema and the configuration into Gallina terms",
+    "harness/obs reads the emitted declarations back with go/ast (import aliases replaced by package paths); gofmt/goimports are trusted to preserve declarations",
+    "ref(): type-name strings of bindings are taken as well-formed (the generator only writes well-formed ones); expect_exact_fields and package_bindings are not modelled",
+    "schema files contain no `# @genqlient` comment lines (input-object fields are scanned in the schema source by the real code)",
+]
+PROPS["C10"] = {
+    "coq": ["Properties/C10.v", "Corr/Convcorr.v"],
+    "trusted": CONV_TRUSTED,
+    "assumptions": ["documentation transcribed in harness/props/conv/c10.go (docType/effective) for the implementation-side oracle"],
+    "level_text": "Theorems over every directive and configuration: the option in force is the first set in the order node, for-entry, operation (typename never inherited from the operation, struct/flatten never via for); nothing above the nearest non-comment line is read for a node; conflicting or unknown options and options in non-applicable places are errors; and for every GraphQL type (any list depth) the Go type produced by convertType is the documented wrapper function of pointer / optional / use_struct_references around the named type (lists -> slices at every depth, pointer on the innermost named type only, bind replaces the whole type). Tied to genqlient_directive.go/convert.go by comparing EVERY emitted declaration of random decorated programs with the full converter model in-kernel, plus an executable transcription of the documentation applied to variables and response fields.",
+    "level_note": "Trusted: Coq kernel; hand-written model of genqlient_directive.go and convert.go validated per run on every declaration; JSON-tag theorem not stated separately (covered by the correspondence).",
+    "theorem_status": {"C10_precedence": "proved", "C10_no_leak_past_code_line": "proved", "C10_conflicting_directives_rejected": "proved",
+                       "C10_unknown_option_rejected": "proved", "C10_omitempty_on_field_rejected": "proved",
+                       "C10_omitempty_on_nonnull_variable_rejected": "proved", "C10_bind_on_operation_rejected": "proved",
+                       "C10_struct_flatten_via_for_rejected": "proved", "C10_directive_on_fragment_spread_rejected": "proved",
+                       "C10_shape_eq_doc": "proved",
+                       "C10_operation_omitempty_reach_refuted": "refuted: operation-level omitempty reaches non-null variables (open finding F-C10-1)"},
+}
